@@ -155,13 +155,62 @@ def time_newticker(ex, g, fid, args):
     return Ptr([[ch, None, False]], 0)
 
 
+# time.AfterFunc: the callback is captured; harnesses fire it explicitly with vFireTimer(t)
+@exact("time.AfterFunc")
+def time_afterfunc(ex, g, fid, args):
+    rt = ex.types[ex.funcs[fid]["sig"]]["results"]
+    et = ex.types[rt[0]]["elem"]
+    p = Ptr([ex.zero(et)], 0)
+    ex.timers[id(p.cont)] = {"keep": p, "fn": args[1], "last": None, "stopped": False}
+    return p
+
+
+def timer_state(ex, p):
+    if p is None:
+        return None
+    st = ex.timers.get(id(p.cont))
+    if st is None:
+        st = {"keep": p, "fn": None, "last": None, "stopped": False}
+        ex.timers[id(p.cont)] = st
+    return st
+
+
 @exact("(*time.Timer).Reset")
 def timer_reset(ex, g, fid, args):
-    ex.events.append(("timer-reset", args[1]))
+    st = timer_state(ex, args[0])
+    if st is not None:
+        st["last"] = args[1]
+        st["stopped"] = False
     return False
 
 
-@exact("(*time.Ticker).Stop", "(*time.Timer).Stop", "(*time.Ticker).Reset")
+@exact("(*time.Timer).Stop")
+def timer_stop(ex, g, fid, args):
+    st = timer_state(ex, args[0])
+    if st is not None:
+        st["stopped"] = True
+    return False
+
+
+@vfunc("vFireTimer")
+def v_firetimer(ex, g, fid, args):
+    """runs the callback registered with time.AfterFunc for this *time.Timer (as the runtime would when it expires)"""
+    st = timer_state(ex, args[0])
+    if st is None or st["fn"] is None:
+        raise Unsupported("vFireTimer on a timer not created by time.AfterFunc")
+    return CallReq(st["fn"], [], lambda r: None)
+
+
+@vfunc("vTimerLastReset")
+def v_timerlastreset(ex, g, fid, args):
+    """duration passed to the last Reset of this *time.Timer, -1 if never reset"""
+    st = timer_state(ex, args[0])
+    if st is None or st["last"] is None:
+        return norm(-1, 64, True)
+    return st["last"]
+
+
+@exact("(*time.Ticker).Stop", "(*time.Ticker).Reset")
 def ticker_stop(ex, g, fid, args):
     return False if "Timer" in fid else None
 
@@ -474,6 +523,7 @@ def install_p2pke(ex):
     ex.hs = {}
     ex.cs_tags = {}
     ex.hash_tables = {}
+    ex.timers = {}
     ex.fn_cache = {}
     ex.fn_keep = []
 
